@@ -19,7 +19,7 @@ from pydrobert.speech import post as _post
 PROPERTY = "C16"
 LEVEL = "exploration"
 TIERS = {
-    "quick": {"runs": 12000, "budget": 75, "selftest": 32, "shrink_budget": 300},
+    "quick": {"runs": 50000, "budget": 70, "selftest": 64, "shrink_budget": 300},
     "thorough": {"runs": 300000, "budget": 1200, "selftest": 2000, "shrink_budget": 1000},
 }
 RULE = (
